@@ -470,7 +470,18 @@ def rule_ef(ck, R, eng, ps):
             if not any(c[1] == '<' for c in ents):
                 bad = bad or ('t->entry[running index].address is read on a path where index < t->entries is not established (%s): one element beyond the entry table is read'
                               % ('; '.join(fmt(c) for c in ents) or 'no test'))
-        if nxt:
+        conds_txt = [fmt(c) for c in p.cond_terms()]
+        in_area = any('ra_addr_is_part_of' in c and '!= 0' in c for c in conds_txt)
+        if nxt and not in_area:
+            # the search for the next area's first entry was made although the running entry does not lie in this area
+            # (or there is none): what counts is what the iteration does with it - an empty area records 0/0/0 and leaves
+            # the running index where it is
+            if not (first == C(0) and last == C(0) and count == C(0)):
+                bad = bad or 'area without a register of its own gets first/last/count = %s/%s/%s, expected 0/0/0' % (fmt(first), fmt(last), fmt(count))
+            if sym.mem_read(p.mem, ke, he) != he:
+                bad = bad or ('the running entry index moves on (to %s) for an area that holds no register: the entry it pointed at belongs to a later area and is '
+                              'never linked into it (its area records one register too few, or none)' % fmt(sym.mem_read(p.mem, ke, he)))
+        elif nxt:
             if first != he:
                 bad = 'entry.first = %s, expected the running entry index' % fmt(first)
             if nxt[0].args[0] != T or nxt[0].args[1] != ap or L(nxt[0].args[2]) != L(he) + 1:
@@ -503,7 +514,7 @@ def rule_ef(ck, R, eng, ps):
         for p in psn:
             if p.end == 'return' and p.loops and p.calls('ra_addr_is_part_of'):
                 lmap = p.loops[-1][1]
-                idx = [(h, pre) for k, (h, pre) in lmap.items() if fmt(k) == 'i']
+                idx = [(h, pre) for k, h, pre in loop_counter(psn, p)]
                 pa = p.calls('ra_addr_is_part_of')[-1]
                 if not idx or strip_cast(p.ret) != idx[0][0] or idx[0][1] != ('v', 'start'):
                     bad = 'returns %s' % fmt(p.ret)
